@@ -1,1 +1,67 @@
-//! Baton scheduler (filled in with C08/C09).
+//! Baton scheduler: real OS threads, exactly one runnable at a time. The controller draws
+//! (actor, operation) and releases exactly that actor for exactly one operation; the choice of
+//! who runs is the simulator's, the threads are real, so a `MemCase` created on one thread really
+//! is read, boxed and released (`free` / `munmap`) on another.
+
+use std::sync::mpsc::{channel, Receiver, Sender};
+use std::thread::JoinHandle;
+
+type Job = Box<dyn FnOnce() + Send + 'static>;
+
+struct Actor {
+    tx: Option<Sender<Job>>,
+    handle: Option<JoinHandle<()>>,
+}
+
+pub struct Sched {
+    actors: Vec<Actor>,
+    pub handoffs: u64,
+}
+
+impl Sched {
+    pub fn new(n: usize) -> Sched {
+        let mut actors = Vec::new();
+        for i in 0..n {
+            let (tx, rx): (Sender<Job>, Receiver<Job>) = channel();
+            let handle = std::thread::Builder::new()
+                .name(format!("actor-{}", i))
+                .stack_size(4 << 20)
+                .spawn(move || {
+                    while let Ok(job) = rx.recv() {
+                        job();
+                    }
+                })
+                .expect("spawn actor");
+            actors.push(Actor { tx: Some(tx), handle: Some(handle) });
+        }
+        Sched { actors, handoffs: 0 }
+    }
+    pub fn n(&self) -> usize {
+        self.actors.len()
+    }
+    /// Run `f` on actor `a` and wait for it: the baton goes to `a` and comes back.
+    pub fn run_on<R: Send + 'static>(&mut self, a: usize, f: impl FnOnce() -> R + Send + 'static) -> R {
+        let (rtx, rrx) = channel::<R>();
+        let job: Job = Box::new(move || {
+            let r = f();
+            let _ = rtx.send(r);
+        });
+        self.handoffs += 1;
+        let a = a % self.actors.len();
+        self.actors[a].tx.as_ref().unwrap().send(job).expect("actor thread is gone");
+        rrx.recv().expect("actor thread died while holding the baton")
+    }
+}
+
+impl Drop for Sched {
+    fn drop(&mut self) {
+        for a in &mut self.actors {
+            a.tx.take();
+        }
+        for a in &mut self.actors {
+            if let Some(h) = a.handle.take() {
+                let _ = h.join();
+            }
+        }
+    }
+}
